@@ -13,6 +13,8 @@
 package c08
 
 import (
+	"crypto/sha256"
+	"encoding/hex"
 	"encoding/json"
 	"fmt"
 	"os"
@@ -39,6 +41,8 @@ type inputRun struct {
 	truth    *sqlref.Dump
 	hits     int
 	depth    int
+	mu       sync.Mutex
+	seen     map[string]*stateInfo
 }
 
 // Case identifies one enumerated case: the hook-hit numbers at which the
@@ -130,6 +134,8 @@ func label(crashed string, ops []string) string {
 // It returns the number of hook hits the upgrade part made.
 func (d *driver) judge(ir *inputRun, raft, scratch, logp string) (key, what string, hits int) {
 	before := stateClass(raft)
+	hadPlan, hadNew := exists(filepath.Join(raft, "UPGRADE_8_10_PLAN")), exists(filepath.Join(raft, "wsnapshots"))
+	hadOld8, hadOld7 := exists(filepath.Join(raft, "rsnapshots")), exists(filepath.Join(raft, "snapshots"))
 	outDB := filepath.Join(scratch, "out.db")
 	os.Remove(outDB)
 	tr := filepath.Join(scratch, "trace-final")
@@ -145,7 +151,15 @@ func (d *driver) judge(ir *inputRun, raft, scratch, logp string) (key, what stri
 	hits = res.UpgradeHits
 	if !res.OK {
 		if strings.HasPrefix(res.Stage, "upgrade") {
-			return "restart-fails:" + res.Stage + ":state=" + before, fmt.Sprintf("start fails in %s with directory state {%s}: %s", res.Stage, before, res.Err), hits
+			cls := "state=" + before
+			if res.Stage == "upgrade8to10" && hadPlan && hadNew && !hadOld7 {
+				// the plan's rename step had taken effect before the crash
+				cls = "resume-after-rename:old-dir-removed"
+				if hadOld8 {
+					cls = "resume-after-rename:old-dir-present"
+				}
+			}
+			return "restart-fails:" + res.Stage + ":" + cls, fmt.Sprintf("start fails in %s with directory state {%s}: %s", res.Stage, before, res.Err), hits
 		}
 		return "after-upgrade:" + res.Stage + "-fails", fmt.Sprintf("upgrade returned nil but %s failed (state before: %s): %s", res.Stage, before, res.Err), hits
 	}
@@ -251,8 +265,46 @@ func (d *driver) storeOpen(ir *inputRun, raft, logp string, cs Case) {
 	c.Count("store_open_held", 1)
 }
 
+// stateInfo is what is known about one distinct on-disk state of an input.
+type stateInfo struct {
+	ready    chan struct{} // closed once the verdict of a start from this state is known
+	key      string
+	hits     int
+	expanded int // largest remaining depth this state was expanded with
+}
+
+// treeHash identifies the on-disk state of a raft directory: names, directory
+// structure and file contents, with the absolute location W (which the plan
+// file embeds) normalised away.
+func treeHash(W string) string {
+	h := sha256.New()
+	filepath.Walk(W, func(p string, info os.FileInfo, err error) error {
+		if err != nil {
+			return nil
+		}
+		rel, _ := filepath.Rel(W, p)
+		if info.IsDir() {
+			fmt.Fprintf(h, "D %s\n", rel)
+			return nil
+		}
+		if strings.HasSuffix(p, "-shm") {
+			return nil // SQLite shared-memory index: rebuilt on open, content is not state
+		}
+		b, _ := os.ReadFile(p)
+		if strings.HasPrefix(filepath.Base(p), "UPGRADE_8_10_PLAN") {
+			b = []byte(strings.ReplaceAll(string(b), W, "@W@"))
+		}
+		fmt.Fprintf(h, "F %s %x\n", rel, sha256.Sum256(b))
+		return nil
+	})
+	return hex.EncodeToString(h.Sum(nil)[:12])
+}
+
 // explore enumerates the crashes of the start performed on the state saved in
-// state (a copy of a raft dir), which is reached by the crash path so far.
+// state (a copy of a raft dir), which is reached by the crash path so far. A
+// start depends on nothing but the directory contents, so a crashed state that
+// was already seen for this input inherits its verdict, and is expanded again
+// only if more crash depth remains than when it was expanded before.
 func (d *driver) explore(ir *inputRun, W, sdir string, state string, hits int, path []int, points []string, only []int) {
 	c := d.c
 	logp := filepath.Join(sdir, "log")
@@ -286,41 +338,80 @@ func (d *driver) explore(ir *inputRun, W, sdir string, state string, hits int, p
 		npoints := append(append([]string{}, points...), p)
 		cs := Case{Input: ir.in, Path: npath, Points: npoints}
 		c.Nontrivial(fmt.Sprintf("%s/%v", ir.in.Key(), npath))
-		// keep the crashed state for the deeper level
+
+		remaining := ir.depth - level
+		hash := treeHash(W)
+		ir.mu.Lock()
+		info := ir.seen[hash]
+		claimed := info == nil
+		if claimed {
+			info = &stateInfo{ready: make(chan struct{}), expanded: -1}
+			ir.seen[hash] = info
+		}
+		ir.mu.Unlock()
+		if d.replay {
+			claimed = true
+		}
 		next := filepath.Join(sdir, fmt.Sprintf("state-l%d", level))
-		deeper := level < ir.depth
 		wantStore := d.storeRun && level == 1 && !d.replay
-		if deeper || wantStore {
+		if remaining > 0 || wantStore {
 			if err := c07.ResetDir(W, next, sqlref.CopyTree); err != nil {
 				c.Inconclusive("copy failed: " + err.Error())
+				if claimed && !d.replay {
+					info.key = "inconclusive"
+					close(info.ready)
+				}
 				continue
 			}
 		}
-		cls := stateClass(W)
-		key, what, h := d.judge(ir, W, sdir, logp)
-		switch {
-		case key == "inconclusive":
-			c.Inconclusive(what)
-		case key != "":
-			c.Violation(key, fmt.Sprintf("input %s, crashes at %v (hits %v), state after last crash {%s}: %s", ir.in.Key(), npoints, npath, cls, what), cs)
-		default:
-			c.Held(1)
-			if wantStore {
-				// the start above completed the upgrade; additionally let the
-				// real store open from the crashed state itself
-				if err := c07.ResetDir(next, W, sqlref.CopyTree); err == nil {
-					d.storeOpen(ir, W, logp, cs)
-				}
+		if claimed {
+			cls := stateClass(W)
+			key, what, h := d.judge(ir, W, sdir, logp)
+			info.key, info.hits = key, h
+			if !d.replay {
+				close(info.ready)
+			}
+			c.Count("distinct_states_judged", 1)
+			switch {
+			case key == "inconclusive":
+				c.Inconclusive(what)
+			case key != "":
+				c.Violation(key, fmt.Sprintf("input %s, crashes at %v (hits %v), state after last crash {%s}: %s", ir.in.Key(), npoints, npath, cls, what), cs)
+			default:
+				c.Held(1)
+			}
+			c.Sample(map[string]any{"input": ir.in.Key(), "newest_original": ir.gen, "crash_path": npath, "points": npoints, "state_after_crash": cls, "restart_upgrade_hook_hits": h})
+		} else {
+			<-info.ready
+			c.Count("verdict_inherited_from_identical_state", 1)
+			if info.key == "" {
+				c.Held(1)
 			}
 		}
-		c.Sample(map[string]any{"input": ir.in.Key(), "newest_original": ir.gen, "crash_path": npath, "points": npoints, "state_after_crash": cls, "restart_upgrade_hook_hits": h})
-		if deeper {
-			var o []int
-			if len(only) > 1 {
-				o = only[1:]
+		if wantStore && info.key == "" {
+			// additionally let the real store.Store open the crashed state
+			if err := c07.ResetDir(next, W, sqlref.CopyTree); err == nil {
+				d.storeOpen(ir, W, logp, cs)
 			}
-			d.explore(ir, W, sdir, next, h, npath, npoints, o)
 		}
+		if remaining <= 0 {
+			continue
+		}
+		ir.mu.Lock()
+		expand := info.expanded < remaining || d.replay
+		if expand {
+			info.expanded = remaining
+		}
+		ir.mu.Unlock()
+		if !expand {
+			c.Count("subtrees_pruned_identical_state", 1)
+			continue
+		}
+		var o []int
+		if len(only) > 1 {
+			o = only[1:]
+		}
+		d.explore(ir, W, sdir, next, info.hits, npath, npoints, o)
 	}
 }
 
@@ -346,12 +437,9 @@ func inputs(c *vf.Ctx) []*inputRun {
 		}
 	}
 	var out []*inputRun
-	for i, in := range ins {
-		depth := 2
-		if !c.Quick() && i < 8 {
-			depth = 3
-		}
-		out = append(out, &inputRun{in: in, depth: depth})
+	for _, in := range ins {
+		depth := c.N(2, 3)
+		out = append(out, &inputRun{in: in, depth: depth, seen: map[string]*stateInfo{}})
 	}
 	return out
 }
@@ -380,7 +468,7 @@ func run(c *vf.Ctx) {
 			return
 		}
 		d.replay = true
-		ir := &inputRun{in: rp.Case.Input, dir: filepath.Join(root, "replay"), depth: len(rp.Case.Path)}
+		ir := &inputRun{in: rp.Case.Input, dir: filepath.Join(root, "replay"), depth: len(rp.Case.Path), seen: map[string]*stateInfo{}}
 		if err := d.prepare(ir); err != nil {
 			c.Logf("replay prepare: %v", err)
 			return
